@@ -16,10 +16,12 @@ import (
 	"sort"
 	"strconv"
 	"strings"
+	"sync/atomic"
 	"syscall"
 	"time"
 
 	"verifharness/core"
+	"verifharness/lab"
 	_ "verifharness/props"
 )
 
@@ -93,6 +95,10 @@ func child(p *core.Prop) {
 	r := core.NewResult()
 	t0 := time.Now()
 	flush := func() {
+		if ok, bad := atomic.LoadInt64(&lab.EstablishOK), atomic.LoadInt64(&lab.EstablishFailed); ok+bad > 0 {
+			r.SetCount("lab.establish_ok", int(ok))
+			r.SetCount("lab.establish_failed", int(bad))
+		}
 		wr := r.ToWire()
 		wr.WallS = core.Since(t0)
 		b, _ := json.Marshal(wr)
@@ -428,6 +434,20 @@ func parent(p *core.Prop) int {
 	floor := p.FloorQuick
 	if *fTier == "thorough" {
 		floor = p.FloorThorough
+	}
+	{
+		var ok, bad int64
+		for k, v := range merged.Counters {
+			if strings.HasSuffix(k, ".lab.establish_ok") {
+				ok += v
+			}
+			if strings.HasSuffix(k, ".lab.establish_failed") {
+				bad += v
+			}
+		}
+		if bad > ok && bad > 20 {
+			broken = append(broken, fmt.Sprintf("the workload could not establish its sessions (%d of %d plain logons failed): nothing about the property was observed", bad, ok+bad))
+		}
 	}
 	if *fPart == "" && len(nontriv) < floor && len(broken) == 0 {
 		broken = append(broken, fmt.Sprintf("only %d distinct non-trivial cases observed (floor %d)", len(nontriv), floor))
